@@ -96,6 +96,22 @@ class Domain:
         return Num(self, None, self.conv(f))
 
 
+CONCRETE_UNARY = {
+    "ln_1p": math.log1p, "exp_m1": math.expm1, "sqrt": math.sqrt, "log2": math.log2, "log10": math.log10,
+    "sin": math.sin, "cos": math.cos, "tan": math.tan, "tanh": math.tanh, "sinh": math.sinh, "cosh": math.cosh,
+    "cbrt": lambda x: math.copysign(abs(x) ** (1.0 / 3.0), x), "exp2": lambda x: 2.0 ** x,
+}
+
+
+def concrete_unary(name, x):
+    try:
+        return CONCRETE_UNARY[name](x)
+    except (ValueError, OverflowError):
+        if name in ("ln_1p",) and x == -1.0:
+            return float("-inf")
+        return float("nan")
+
+
 class FPDomain(Domain):
     name = "FP"
 
@@ -167,6 +183,15 @@ class FPDomain(Domain):
         return Num(self, z3.If(z3.fpIsNaN(a.t), b.t, z3.If(z3.fpIsNaN(b.t), a.t,
                                                          z3.If(z3.fpGEQ(a.t, b.t), a.t, b.t))))
 
+    def min(self, a, b):
+        if a.conc is not None and b.conc is not None:
+            if a.conc != a.conc:
+                return b
+            if b.conc != b.conc:
+                return a
+            return a if a.conc <= b.conc else b
+        return Num(self, z3.If(z3.fpIsNaN(a.t), b.t, z3.If(z3.fpIsNaN(b.t), a.t, z3.If(z3.fpLEQ(a.t, b.t), a.t, b.t))))
+
     def ln(self, a):
         if a.conc is not None:
             c = a.conc
@@ -184,6 +209,18 @@ class FPDomain(Domain):
             except OverflowError:
                 return Num(self, None, float("inf"))
         return Num(self, self.exp_f(a.t))
+
+    def unary_uf(self, name, a):
+        """any other libm-style unary function: concrete through Python's libm, symbolic as an uninterpreted function"""
+        if name not in CONCRETE_UNARY:
+            raise ValueError("unknown unary f64 function " + name)
+        if a.conc is not None:
+            return Num(self, None, concrete_unary(name, a.conc))
+        if not hasattr(self, "_ufs"):
+            self._ufs = {}
+        if name not in self._ufs:
+            self._ufs[name] = z3.Function(name + "_f64", self.sort, self.sort)
+        return Num(self, self._ufs[name](a.t))
 
     def cmp(self, op, a, b):
         if a.conc is not None and b.conc is not None:
@@ -322,6 +359,11 @@ class RealDomain(Domain):
             return a if a.conc >= b.conc else b
         return Num(self, z3.If(a.t >= b.t, a.t, b.t))
 
+    def min(self, a, b):
+        if a.conc is not None and b.conc is not None:
+            return a if a.conc <= b.conc else b
+        return Num(self, z3.If(a.t <= b.t, a.t, b.t))
+
     def ln(self, a):
         # libm accuracy is outside the claim: ln/exp are uninterpreted real functions
         return Num(self, self.ln_f(a.t))
@@ -335,6 +377,15 @@ class RealDomain(Domain):
             return {"Lt": x < y, "Le": x <= y, "Gt": x > y, "Ge": x >= y, "Eq": x == y, "Ne": x != y}[op]
         x, y = a.t, b.t
         return {"Lt": x < y, "Le": x <= y, "Gt": x > y, "Ge": x >= y, "Eq": x == y, "Ne": x != y}[op]
+
+    def unary_uf(self, name, a):
+        if name not in CONCRETE_UNARY:
+            raise ValueError("unknown unary f64 function " + name)
+        if not hasattr(self, "_ufs"):
+            self._ufs = {}
+        if name not in self._ufs:
+            self._ufs[name] = z3.Function(name + "_real", z3.RealSort(), z3.RealSort())
+        return Num(self, self._ufs[name](a.t))
 
     def reset(self):
         super().reset()
